@@ -5,6 +5,7 @@ pub mod body;
 pub mod ctx;
 pub mod exec;
 pub mod faults;
+pub mod gen;
 pub mod glue;
 #[allow(warnings)]
 pub mod glue_gen;
@@ -37,6 +38,7 @@ fn engine_by_name(name: &str) -> Option<Box<dyn Engine>> {
         "wire-c18" => Box::new(WireEngine { profile: Profile::C18, enumerate: false }),
         "wire-c18-enum" => Box::new(WireEngine { profile: Profile::C18, enumerate: true }),
         "wire-c19" => Box::new(WireEngine { profile: Profile::C19, enumerate: false }),
+        "gen-c20" => Box::new(gen::GenEngine { executions: 5 }),
         "pipe-c01" => Box::new(pipe::PipeEngine { profile: pipe::PipeProfile::C01 }),
         "pipe-c05" => Box::new(pipe::PipeEngine { profile: pipe::PipeProfile::C05 }),
         _ => return None,
@@ -74,6 +76,7 @@ fn main() {
                 "C01" => vec![("pipe-c01", 100_000, 5_000_000)],
                 "C05" => vec![("pipe-c05", 100_000, 5_000_000)],
                 "C04" => vec![("wire-c04", 150_000, 6_000_000)],
+                "C20" => vec![("gen-c20", 160, 6_000)],
                 "C06" => vec![("wire-c06", 150_000, 4_000_000), ("wire-c06-enum", 2_000, 60_000)],
                 "C07" => vec![("wire-c07", 60_000, 2_000_000)],
                 "C09" => vec![("wire-c09", 150_000, 5_000_000)],
@@ -96,7 +99,15 @@ fn main() {
                     tier: tier.clone(),
                     max_wall_s: if thorough { 1500.0 } else { 120.0 },
                     level: if matches!(prop.as_str(), "C06" | "C18") { "fault_enumeration" } else { "exploration" },
-                    det_runs: if ename.ends_with("-enum") { if thorough { 300 } else { 60 } } else if thorough { 20_000 } else { 3_000 },
+                    det_runs: if *ename == "gen-c20" {
+                        if thorough { 48 } else { 16 }
+                    } else if ename.ends_with("-enum") {
+                        if thorough { 300 } else { 60 }
+                    } else if thorough {
+                        20_000
+                    } else {
+                        3_000
+                    },
                     evidence_path: String::new(),
                     extra: Value::Null,
                 };
@@ -133,6 +144,9 @@ fn main() {
                 }
             }
             std::process::exit(exit);
+        }
+        "gen-lib" => {
+            std::process::exit(gen::gen_lib_main(&args[2..]));
         }
         "scan" => {
             // development aid: list every violation kind of every property an engine produces
